@@ -7,13 +7,13 @@
    Some (SValue ..) = typed value through mpt_object_set_value, Some (SObj ..) = another object).
    [abs o] is what mpt_*_get shows by position through the REGENERATED read tables of Gen_Layout.v.
    [sset]/[denote]/[resolve_name]/[defaults] are the specification (LayoutSpec.v).  [wf_*]: texts are C strings
-   (no NUL inside); [inv]: an axis has the logarithmic flag only together with interval count 0 (kept by every
-   operation, true of default objects).  All statements are for ALL objects, names, texts, values, oracle answers. *)
+   (no NUL inside); [inv]: an axis has the logarithmic flag only together with interval count 0, a graph's clip mask
+   is not negative (kept by every operation, established by every default / constructor: theorems C20_inv_default, C20_inv_cxx_new).  All statements are for ALL objects, names, texts, values, oracle answers. *)
 Require Import List String Ascii NArith ZArith Bool.
 Import ListNotations.
 From MptV Require Import C20.LayoutTypes C20.LayoutConv C20.Gen_Layout C20.LayoutModel C20.LayoutSpec
   C20.LayoutLemmas C20.LayoutAbs C20.LayoutFields C20.LayoutColour C20.LayoutRefineAxis C20.LayoutRefine
-  C20.LayoutMatch C20.LayoutTables.
+  C20.LayoutRefineGraph C20.LayoutMatch C20.LayoutTables C20.LayoutGet C20.LayoutSetProp C20.LayoutCxx C20.LayoutHistory.
 Local Open Scope Z_scope.
 
 (* every set / reset / assignment step is the specification's step on the listed properties *)
@@ -107,6 +107,68 @@ Proof. exact get_table_fields_disjoint_in_bounds. Qed.
 Theorem C20_defaults_match : forall n, abs (default_of n) = defaults (kind_no n).
 Proof. exact defaults_match. Qed.
 
+(* ---- lookup by name through the regenerated tables ---- *)
+(* mpt_property_match computes the specification's matching rule *)
+Theorem C20_match_is_spec : forall m mlen l,
+  match spec_match m mlen l with
+  | Some i => property_match m mlen l 0 = Z.of_nat i
+  | None => property_match m mlen l 0 < 0
+  end.
+Proof. exact match_spec. Qed.
+(* mpt_*_get by name (any prefix, any case): the property the rule selects, its value, and a return value that
+   says "differs from the default" exactly when the value is not the documented default *)
+Theorem C20_get_by_name : forall o name, inv o -> not_xy o name ->
+  match obj_get o name with
+  | inl _ => sget (kind_of o) (abs o) name = TR
+  | inr e => sget (kind_of o) (abs o) name = TG (mksent (pe_name e) (pe_val e) (0 <? pe_ret e))
+  end.
+Proof. exact get_refines. Qed.
+Theorem C20_get_text_xy : forall x c,
+  match obj_get (OText x) [c] with
+  | inl _ => sget KText (abs (OText x)) [c] = TR
+  | inr e => exists d, sget KText (abs (OText x)) [c] = TG (mksent (pe_name e) (pe_val e) d)
+  end.
+Proof. exact get_text_xy. Qed.
+(* every enumerated property: return value > 0 iff the value is not the documented default *)
+Theorem C20_get_flags : forall o, inv o -> Forall (flag_ok (kind_of o)) (obj_listed o).
+Proof. exact listed_flags. Qed.
+
+(* ---- mpt_object_set_property: flags, name modes, BadArgument only for unknown names ---- *)
+Theorem C20_set_property_refines : forall o other flags name (s : osrc),
+  same_kind o other -> wf_osrc s -> inv o -> not_value s ->
+  sprop (kind_of o) (abs o) (abs other) flags name s =
+  (sp_tok (fst (set_property_op o other flags name s)), abs (snd (set_property_op o other flags name s))).
+Proof. exact set_property_refines. Qed.
+
+(* ---- histories over all operations, and from default / constructed objects without hypothesis ---- *)
+Theorem C20_history_states : forall ops a b,
+  same_kind a b -> inv a -> inv b -> Forall op_ok ops ->
+  mstates (a, b) ops = sstates (kind_of a) (abs a, abs b) ops.
+Proof. exact history_states. Qed.
+Theorem C20_history_states_from_init : forall n ops, Forall op_ok ops ->
+  mstates (default_of n, default_of n) ops = sstates (kind_no n) (defaults (kind_no n), defaults (kind_no n)) ops.
+Proof. exact history_states_from_init. Qed.
+Theorem C20_history_from_init : forall n ops, Forall set_only ops ->
+  mrun_abs (default_of n, default_of n) ops = srun_abs (kind_no n) (defaults (kind_no n), defaults (kind_no n)) ops.
+Proof. exact history_from_init. Qed.
+Theorem C20_inv_default : forall n, inv (default_of n).
+Proof. exact inv_default. Qed.
+
+(* ---- mpt++ classes: the object interface is the C function on the properties ---- *)
+Theorem C20_cxx_set_is_c : forall o name src, cxx_set_property o name src = obj_set o name src.
+Proof. exact cxx_set_is_c. Qed.
+Theorem C20_cxx_get_is_c : forall o name, cxx_property_by_name o name = obj_get o name.
+Proof. exact cxx_get_is_c. Qed.
+Theorem C20_cxx_assign : forall o other name, same_kind o other -> (name = None \/ name = Some []) ->
+  cxx_set_property o name (Some (cxx_source other)) = (SOk, cxx_clone other).
+Proof. exact cxx_assign. Qed.
+Theorem C20_inv_cxx_new : forall n, inv (cxx_new n).
+Proof. exact inv_cxx_new. Qed.
+Theorem C20_inv_cxx_axis : forall flags, inv (cxx_new_axis flags).
+Proof. exact inv_cxx_axis. Qed.
+Theorem C20_cxx_new_defaults : forall n, abs (cxx_new n) = defaults (kind_no n).
+Proof. exact cxx_new_defaults. Qed.
+
 (* ---- non-vacuity: concrete objects and sources meet the hypotheses and exercise non-trivial branches ---- *)
 Definition ex_orc := mktorc (mkforc 3 false 1080033280%N) (mkforc 3 false 4615063718147915776%N) no_forc.   (* "3.5" *)
 Definition ex_axis := snd (axis_set (snd (axis_set def_axis (Some (bs "title")) (Some (SText (Some (bs "T")) no_torc))))
@@ -157,6 +219,35 @@ Qed.
 Example C20_ex_tables : List.length all_tables = 6%nat /\ List.length (td_rows (hd (mktd "" 0 [] []) all_tables)) = 10%nat.
 Proof. split; reflexivity. Qed.
 
+Example C20_ex_get :
+  (match obj_get (OAxis ex_axis) (bs "SUBxyz") with inr e => (pe_name e, pe_val e, pe_ret e) | inl _ => ([], PNone, 0) end)
+  = (bs "subtick", PInt 3, 1)
+  /\ sget KAxis (abs (OAxis ex_axis)) (bs "SUBxyz") = TG (mksent (bs "subtick") (PInt 3) true)
+  /\ obj_get (OAxis ex_axis) (bs "su") = inl (- BadArgument)
+  /\ obj_get (OWorld def_world) (bs "s") = inl (- BadValue)
+  /\ not_xy (OAxis ex_axis) (bs "SUBxyz").
+Proof. repeat split; vm_compute; reflexivity. Qed.
+Example C20_ex_set_property :
+  fst (set_property_op (OAxis ex_axis) (OAxis def_axis) 48 (Some (bs "dec")) (XText (Some (bs "4")) no_torc)) = RKn 0
+  /\ fst (set_property_op (OAxis ex_axis) (OAxis def_axis) 32 (Some (bs "dec")) (XText (Some (bs "4")) no_torc)) = RKn 16
+  /\ fst (set_property_op (OAxis ex_axis) (OAxis def_axis) 176 (Some (bs "nosuch")) (XText (Some (bs "4")) no_torc)) = RKn 128
+  /\ fst (set_property_op (OAxis ex_axis) (OAxis def_axis) 48 (Some (bs "nosuch")) (XText (Some (bs "4")) no_torc)) = RE BadArgument
+  /\ fst (set_property_op (OAxis ex_axis) (OAxis def_axis) 48 None XReset) = RKn 64
+  /\ aget (abs (snd (set_property_op (OAxis ex_axis) (OAxis def_axis) 48 (Some (bs "dec")) (XText (Some (bs "4")) no_torc)))) (bs "decimals")
+     = Some (PInt 4).
+Proof. repeat split; vm_compute; reflexivity. Qed.
+Example C20_ex_cxx :
+  cxx_set_property (cxx_new 3) None (Some (cxx_source (cxx_new 3))) = (SOk, cxx_new 3)
+  /\ abs (cxx_new_axis 1) = defaults KAxis /\ cxx_new_axis 1 <> cxx_new_axis 0.
+Proof. repeat split; try reflexivity. vm_compute. congruence. Qed.
+Example C20_ex_history :
+  Forall op_ok [OpSet false (Some (bs "int")) (XText (Some (bs "log")) no_torc); OpGet false (bs "int");
+                OpSp true 48 (Some (bs "sub")) (XText (Some (bs "2")) no_torc); OpSet false None XOther]
+  /\ List.length (mstates (default_of 0, default_of 0)
+        [OpSet false (Some (bs "int")) (XText (Some (bs "log")) no_torc); OpGet false (bs "int");
+         OpSp true 48 (Some (bs "sub")) (XText (Some (bs "2")) no_torc); OpSet false None XOther]) = 4%nat.
+Proof. split; [repeat constructor|reflexivity]. Qed.
+
 Print Assumptions C20_set_refines.
 Print Assumptions C20_history_refines.
 Print Assumptions C20_set_get.
@@ -172,3 +263,18 @@ Print Assumptions C20_prefix_match_unique.
 Print Assumptions C20_prefix_match_refused.
 Print Assumptions C20_get_table_fields_disjoint_in_bounds.
 Print Assumptions C20_defaults_match.
+Print Assumptions C20_match_is_spec.
+Print Assumptions C20_get_by_name.
+Print Assumptions C20_get_text_xy.
+Print Assumptions C20_get_flags.
+Print Assumptions C20_set_property_refines.
+Print Assumptions C20_history_states.
+Print Assumptions C20_history_states_from_init.
+Print Assumptions C20_history_from_init.
+Print Assumptions C20_inv_default.
+Print Assumptions C20_cxx_set_is_c.
+Print Assumptions C20_cxx_get_is_c.
+Print Assumptions C20_cxx_assign.
+Print Assumptions C20_inv_cxx_new.
+Print Assumptions C20_inv_cxx_axis.
+Print Assumptions C20_cxx_new_defaults.
